@@ -311,6 +311,34 @@ BY_NAME = {t.name: t for t in TEMPLATES}
 assert len(BY_NAME) == len(TEMPLATES)
 
 
+# Python-side presets of each template as source text, for the stand-alone
+# snippets in replay files (same content as the setup= functions above).
+_SN_OBJ = "mod.zzo = types.SimpleNamespace()"
+_SN_METH = "mod.zzo = types.SimpleNamespace(**{ms: lambda: 1})"
+_SN_FAKE = "import sys; sys.modules['zzfake'] = types.ModuleType('zzfake'); setattr(sys.modules['zzfake'], ms, 'val:' + ms)"
+_SN_MAC = ("import sys; zzm = types.ModuleType('zzfakemac'); "
+           "zzm._hy_macros = {m: (lambda m=m: 'val:' + m) for m in (ms, 'foo')}; sys.modules['zzfakemac'] = zzm")
+SNIPPET_SETUP = {
+    "python-binds-symbol-reads": "mod.__dict__[ms] = 5",
+    "with": "import contextlib; mod.zzcm = contextlib.nullcontext(1)",
+    "python-dict->keyword-lookup": "mod.zzd = {ms: 1}",
+    "python-dict->keyword-object-call": "mod.zzd = {ms: 1}",
+    "dotted-setv->dot-form": _SN_OBJ,
+    "dot-form-setv->dotted": _SN_OBJ,
+    "python-setattr->method-call": _SN_METH,
+    "python-setattr->dotted-call": _SN_METH,
+    "python-setattr->dot-form-call": _SN_METH,
+    "from-import-name": _SN_FAKE,
+    "from-import-name-as": _SN_FAKE,
+    "import-module": "import sys; sys.modules[ms] = types.ModuleType(ms); sys.modules[ms].zzid = 'mod:' + ms",
+    "require-name": _SN_MAC,
+    "require-as": _SN_MAC,
+    "match-keyword-pattern": "mod.zzo = types.SimpleNamespace(**{ms: 1}); mod.zzC = types.SimpleNamespace",
+    "match-keyword-pattern-capture": "mod.zzo = types.SimpleNamespace(**{ms: 9}); mod.zzC = types.SimpleNamespace",
+}
+assert {t.name for t in TEMPLATES if t.setup} <= set(SNIPPET_SETUP)
+
+
 # --------------------------------------------------------------- execution
 def jsonable(x):
     if isinstance(x, (str, int, float, bool)) or x is None:
